@@ -65,9 +65,15 @@ def known_for(prop):
     return [k for k in load_json(KNOWN, []) if k.get('property') == prop and k.get('status') == 'known']
 
 
-def match_known(known, unit_short, name):
+def match_known(known, unit_short, name, inputs=None):
+    """a known finding is identified by unit + failing obligation AND, when the entry says so (`where`), by the specific
+    input that fails: a different input failing the same obligation is still a violation"""
     for k in known:
         if k.get('unit') == unit_short and any(fnmatch.fnmatch(name, pat) for pat in k.get('obligations', [])):
+            where = k.get('where')
+            if where:
+                if not isinstance(inputs, dict) or any(inputs.get(a) != b for a, b in where.items()):
+                    continue
             return k
     return None
 
@@ -309,7 +315,7 @@ def run_property(prop, tier, seed, only=None, dump=None):
                  'failures': len(r.get('failures', [])), 'samples': r.get('samples', [])[:3]}
         bounded_out.append(entry)
         for f in r.get('failures', []):
-            k = match_known(known, b.name, f.get('clause', ''))
+            k = match_known(known, b.name, f.get('clause', ''), f.get('inputs'))
             if k:
                 known_hits.append((k, 'bounded ' + f.get('clause', '')))
                 continue
